@@ -2,14 +2,36 @@ mod core;
 mod exec;
 mod vgen;
 mod hist;
+mod isolate;
 mod model;
 mod props2;
+mod props_crash;
 mod props_db;
 mod props_search;
+mod props_storage;
 mod query;
 mod val;
 
 use crate::core::{Ctx, Tier};
+
+#[global_allocator]
+static ALLOC: isolate::Capped = isolate::Capped;
+
+/// Properties whose campaigns run in isolated child processes: (campaign name whose case type
+/// the saved failing input has, per-case watchdog in seconds).
+fn isolated(id: &str) -> Option<(&'static str, u64)> {
+    if std::env::var("VERIF_NO_ISOLATION").is_ok() {
+        return None;
+    }
+    match id {
+        "C01" => Some(("c01-crash", 60)),
+        "C02" => Some(("c02-crash", 120)),
+        "C03" => Some(("c03-crash", 120)),
+        "C04" => Some(("c04-storage", 60)),
+        "C32" => Some(("c32-fault", 60)),
+        _ => None,
+    }
+}
 
 fn usage() -> ! {
     eprintln!("usage: vcheck <property id> [--tier quick|thorough] [--replay <file>]");
@@ -52,11 +74,23 @@ fn main() {
         .map(|v| v as u64)
         .unwrap_or(0);
     core::install_panic_hook();
+    isolate::enable_cap_from_env();
     if let Some(path) = replay {
         std::process::exit(replay_one(&id, &path));
     }
     let mut ctx = Ctx::new(&id, tier, seed);
+    if ctx.child.is_none() {
+        if let Some((campaign, watchdog)) = isolated(&id) {
+            isolate::supervise(&mut ctx, campaign, watchdog, 2);
+            std::process::exit(ctx.finish());
+        }
+    }
     match id.as_str() {
+        "C01" => props_storage::c01(&mut ctx),
+        "C02" => props_crash::c02(&mut ctx),
+        "C03" => props_crash::c03(&mut ctx),
+        "C32" => props_crash::c32(&mut ctx),
+        "C04" => props_storage::c04(&mut ctx),
         "C05" => props2::c05(&mut ctx),
         "C06" => props2::c06(&mut ctx),
         "C12" => props2::c12(&mut ctx),
@@ -82,6 +116,11 @@ fn main() {
 fn replay_one(id: &str, path: &str) -> i32 {
     match id {
         "C08" | "C09" | "C10" | "C11" => props_db::replay(path),
+        "C01" => props_storage::c01_replay(path),
+        "C02" => props_crash::c02_replay(path),
+        "C03" => props_crash::c03_replay(path),
+        "C32" => props_crash::c32_replay(path),
+        "C04" => props_storage::c04_replay(path),
         "C05" => props2::c05_replay(path),
         "C06" => props2::c06_replay(path),
         "C12" => props2::c12_replay(path),
